@@ -84,8 +84,13 @@ def run(ctx, escalated=False):
     seeds = [0, 1, 2, "random"] if quick else [0, 1, 2, 3, 7, 42, 12345, "random"]
     cases = []
     jobs = []
+    import studysim as SS
     for k in range(n):
-        c = expprop.one_case(ctx, k, adversarial=False, pgen=False)
+        SS.PARAM_REFS = True
+        try:
+            c = expprop.one_case(ctx, k, adversarial=False, pgen=False)
+        finally:
+            SS.PARAM_REFS = False
         if c is None or c.dag is None:
             continue
         c.data["id"] = "j%d" % k
